@@ -58,4 +58,54 @@ theorem writeMessage_control_roundtrip (s : W) (hi : Idle s) (hcap : maxFrameHea
     wireControls (writeMessage s t data).2 = wireControls s ++ [(t, data)] := by
   first | exact WriterMore.writeMessage_control_roundtrip .. | (apply WriterMore.writeMessage_control_roundtrip <;> assumption)
 
+/-! ### non-vacuity -/
+section NonVacuity
+set_option linter.defProp false
+
+
+/-- a 70000-byte payload: needs the 64-bit length form -/
+def witBig : Bytes := List.replicate 70000 0x61
+/-- witness for `frame_roundtrip`: the length bound -/
+def witBig_len : witBig.length < 2 ^ 63 := by rw [witBig, List.length_replicate]; decide
+
+/-- non-vacuity of `frame_roundtrip`: both hypotheses hold for a masked FIN+binary frame (b0 = 130) of
+    70000 bytes with the RFC 6455 §5.7 key 37 fa 21 3d, followed by the first bytes of a next frame,
+    and the theorem applies -/
+example : Spec.decodeFrame (Codec.encode false 130 ⟨0x37, 0xfa, 0x21, 0x3d⟩ witBig ++ [0x89, 0x80]) =
+    some (Codec.frameOf false 130 ⟨0x37, 0xfa, 0x21, 0x3d⟩ witBig, [0x89, 0x80]) :=
+  frame_roundtrip false 130 ⟨0x37, 0xfa, 0x21, 0x3d⟩ witBig [0x89, 0x80] (by decide) witBig_len
+
+/-- a client connection, write buffer 4096, two masking keys in the key source -/
+def witC : W := { newW false 4096 false false with keys := [0x37, 0xfa, 0x21, 0x3d, 1, 2, 3, 4] }
+
+/-- the freshly constructed client is `Idle` -/
+def witC_idle : Content.Idle witC :=
+  ⟨rfl, rfl, rfl, (fun m h => by cases h), ⟨by decide, by decide⟩, ⟨[], by decide, rfl⟩, rfl⟩
+
+/-- the client after one text message "Hello" went out -/
+def witC1 : W := (writeMessage witC (1 : Nat) [72, 101, 108, 108, 111]).2
+
+/-- witness for `writeMessage_control_roundtrip`: the client is `Idle` again after that message -/
+def witC1_idle : Content.Idle witC1 :=
+  (Content.writeMessage_roundtrip witC witC_idle 1 (Or.inl rfl) [72, 101, 108, 108, 111] (by decide)).2.1
+
+/-- witness for `writeMessage_control_roundtrip`: the buffer has room for a control frame -/
+def witC1_cap : maxFrameHeaderSize + 125 ≤ witC1.wbufLen := by decide +kernel
+
+/-- a 125-byte ping payload -/
+def witPing : Bytes := List.replicate 125 0x70
+/-- witness for `writeMessage_control_roundtrip`: the payload bound -/
+def witPing_len : witPing.length ≤ 125 := by rw [witPing, List.length_replicate]; decide
+
+open WS.Content WS.WriterMore in
+/-- non-vacuity of `writeMessage_control_roundtrip`: all hypotheses hold for a client (buffer 4096) that
+    already sent one message and a ping of the maximal 125 bytes, and the theorem applies -/
+example :
+    (writeMessage witC1 (9 : Nat) witPing).1 = none ∧ Idle (writeMessage witC1 (9 : Nat) witPing).2 ∧
+    wireMessages (writeMessage witC1 (9 : Nat) witPing).2 = wireMessages witC1 ∧
+    wireControls (writeMessage witC1 (9 : Nat) witPing).2 = wireControls witC1 ++ [(9, witPing)] :=
+  writeMessage_control_roundtrip witC1 witC1_idle witC1_cap 9 (Or.inl rfl) witPing witPing_len
+
+end NonVacuity
+
 end WS.Props.C01
